@@ -112,6 +112,12 @@ def scenarios():
     add("raw-config-7byte", {}, ("raw_command", (b"config get cluster", b"\n\r\nEND\r\n"), {}),
         None, server_kw={"cluster_config": (12, nodes)})
     add("raw-stats-END", {}, ("raw_command", (b"stats", b"END\r\n"), {}), None)
+    add("raw-config-ERROR-7byte", {}, ("raw_command", (b"config get cluster", b"\n\r\nEND\r\n"), {}),
+        ("exc", "MemcacheUnknownCommandError"))
+    add("raw-get-END-server_error", {b"h": (b"hello", 0)}, ("raw_command", (b"get h", b"END\r\n"), {}),
+        ("exc", "MemcacheServerError"), fault=("rline", 0, "server_error"))
+    add("raw-get-END-client_error", {b"h": (b"hello", 0)}, ("raw_command", (b"get h", b"END\r\n"), {}),
+        ("exc", "MemcacheClientError"), fault=("rline", 0, "client_error"))
     add("aws-discovery", {}, ("AWS", (), {}), ("ret", ["10.1.0.1:11211", "10.1.0.2:11212"]),
         server_kw={"cluster_config": (12, nodes)})
     return S
